@@ -91,6 +91,7 @@ struct E5 : Engine {
 			p["enc"] = encs[r.below(13)]; p["key_seed"] = (int)r.below(1000); p["timeout"] = 10 + (int)r.below(3000);
 			if(r.below(6) == 0){ J uf = J::arr(); int n = 1 + (int)r.below(3); for(int k=0;k<n;k++) uf.push((int)r.below(r.below(2) ? 4 : 30)); p["urandom_fail"] = uf; }   // no entropy: open("/dev/urandom") fails at these calls (descriptor exhaustion)
 			p["strategy"] = (int)r.below(3); p["pct_depth"] = 1 + (int)r.below(3); p["pct_len"] = 20 + (int)r.below(400);
+			if(r.below(4) == 0) p["reuse"] = 1;   // one long-lived session_interface re-targeted with set_cookie_adapter_and_reload(): what an accepted cookie loaded must be gone when the next one is rejected
 			if(r.below(3) == 0){ p["p_file_short"] = 50 + (int)r.below(600); p["p_file_eintr"] = r.below(2) ? (int)r.below(200) : 0; }   // the entropy source delivers fewer bytes than asked for / is interrupted (legal for /dev/urandom): IVs must still be random
 #if defined(VERIF_TSAN_VARIANT)
 			bool race = true;    // the TSan build runs only the scenario that has threads in it
@@ -207,6 +208,7 @@ struct E5 : Engine {
 		bool encrypting = enc.compare(0,3,"aes") == 0 || enc.compare(0,5,"split") == 0;
 		Jar jar; std::vector<Issued> issued; std::string last_payload; int64_t timeout = v.get<int>("session.timeout");
 		const J &ops = plan.get("ops"); std::set<std::string> seen_blocks;
+		Jar nobody; std::unique_ptr<session_interface> shared_s; if(plan.geti("reuse")) shared_s.reset(new session_interface(pool,nobody));
 		auto now = []{ return simk::now_us()/1000000; };
 		auto save_with = [&](cppcms::session_pool &pl,Jar &j,const std::string &payload,int age)->Issued { session_interface s(pl,j); s.load(); s.clear(); s.set("d",payload); if(age > 0) s.age(age); else s.default_age();   /* clear() keeps the age loaded from the previous session */ s.reset_session(); s.save(); Issued is; is.cookie = j.jar.count(PREFIX) ? j.jar[PREFIX].value : ""; bool ok; is.cipher = is.cookie.empty() ? "" : my_b64url_decode(is.cookie.substr(1),ok); is.data["d"].value = payload; if(age > 0) is.data["_t"].value = std::to_string(age); is.deadline = now() + (age > 0 ? age : timeout); return is; };
 		for(size_t i=0;i<ops.size() && res.ok;i++){ const J &o = ops.a[i]; std::string op = o.gets("op"); std::string where = "op#" + std::to_string(i) + " " + op; uint64_t uf_op = simk::stats().urandom_open_failed; try {
@@ -250,8 +252,9 @@ struct E5 : Engine {
 				presented = jar.get_session_cookie(PREFIX);
 				bool dok = false; std::string pc = presented.size() > 1 ? my_b64url_decode(presented.substr(1),dok) : std::string();
 				const Issued *match = nullptr; if(!presented.empty() && presented[0] == 'C' && dok) for(auto &is:issued) if(is.cipher == pc) match = &is;
-				session_interface s(pool,jar); bool loaded = false; uint64_t ufl = simk::stats().urandom_open_failed; bool load_failed = false;
-				try { loaded = s.load(); } catch(std::exception const &e){ if(simk::stats().urandom_open_failed == ufl){ res.fail("load-threw",where + ": load() threw " + e.what() + " for cookie " + wire::esc(presented.substr(0,60))); break; } load_failed = true; }
+				std::unique_ptr<session_interface> fresh; if(!shared_s) fresh.reset(new session_interface(pool,jar)); session_interface &s = shared_s ? *shared_s : *fresh;   // reuse: one long-lived object re-targeted to each request's cookies
+				bool loaded = false; uint64_t ufl = simk::stats().urandom_open_failed; bool load_failed = false;
+				try { loaded = shared_s ? s.set_cookie_adapter_and_reload(jar) : s.load(); if(shared_s) cnt["reloads_of_reused_object"]++; } catch(std::exception const &e){ if(simk::stats().urandom_open_failed == ufl){ res.fail("load-threw",where + ": load() threw " + e.what() + " for cookie " + wire::esc(presented.substr(0,60))); break; } load_failed = true; }
 				if(load_failed){ cnt["loads_refused_without_entropy"]++; continue; }   // an encryptor cannot be set up without entropy: the request fails, nothing was accepted
 				cnt["loads"]++;
 				bool want = match && match->deadline >= now();
@@ -261,7 +264,7 @@ struct E5 : Engine {
 				if(!loaded && want){ res.fail("valid-session-rejected",where + ": load() rejected a cookie issued by this server that is still valid"); break; }
 				if(loaded && !identical) cnt["noncanonical_encoding_accepted"]++;
 				if(loaded){ cnt["loads_accepted"]++; MData got; for(auto &k:std::vector<std::string>{"d","_t"}) if(s.is_set(k)) got[k].value = s.get(k); if(!(got == match->data)){ res.fail("wrong-session-data",where + ": accepted cookie returned different data than was saved with it"); break; } }
-				else { cnt["loads_rejected"]++; if(s.is_set("d")) res.fail("data-after-rejection",where + ": rejected session still exposes data");
+				else { cnt["loads_rejected"]++; if(s.is_set("d") || !s.key_set().empty()) res.fail("data-after-rejection",where + ": rejected session still exposes data" + (shared_s ? " (session_interface object re-used from the previous request)" : ""));
 					if(!presented.empty() && jar.jar.count(PREFIX) && jar.jar[PREFIX].value == presented && presented[0] == 'C'){ res.fail("bad-cookie-not-cleared",where + ": the rejected cookie was not cleared from the browser"); break; } }
 			}
 		} catch(std::exception const &){ if(simk::stats().urandom_open_failed == uf_op) throw; cnt["ops_failed_without_entropy"]++; }   // whatever needs entropy may fail when there is none; nothing was accepted or issued
@@ -354,7 +357,7 @@ struct E5 : Engine {
 			run_twin(plan,res,cnt,{&sa->session_pool(),&sb->session_pool()},nullptr,live_sids); return; }
 		if(plan.geti("twin")){ run_twin(plan,res,cnt,{&pool},spyf,live_sids); if(res.ok && !bad_sids.empty()) res.fail("malformed-id-reached-storage","identifier not of the issued form was used to address the storage"); cnt["storage_calls"] = (int64_t)storage_calls; return; }
 		bool conc = plan.geti("conc") && nb > 1; int in_flight = 0;
-		bool reuse = plan.geti("reuse") && !conc; Jar nobody; std::unique_ptr<session_interface> shared_s; if(reuse) shared_s.reset(new session_interface(pool,nobody));
+		bool reuse = plan.geti("reuse") && !conc; Jar nobody; Jar attacker_jar;   /* outlives the request: the re-used session_interface keeps pointing at it until it is re-targeted */ std::unique_ptr<session_interface> shared_s; if(reuse) shared_s.reset(new session_interface(pool,nobody));
 		// me == -2: one thread runs everything in plan order; otherwise browser `me` runs its own requests and me == -1 (the
 		// environment) runs clock advances, gc and attacker requests - all concurrently under the simulated scheduler
 		auto worker = [&](int me){
@@ -370,8 +373,9 @@ struct E5 : Engine {
 				else if(what == "pathlike") c = "I../../../../simfs/sessions/x"; else if(what == "upper_hex") c = "I" + std::string(32,'A'); else if(what == "short_sid") c = "I0123456789abcdef"; else if(what == "junk_c") c = "Cnot-a-valid-cookie~~";
 				else if(what == "other_browser_sid"){ int o2 = (b+1) % nb; c = ms[o2].exists && ms[o2].where == "server" && nb > 1 ? "I" + ms[o2].sid : "I" + std::string(32,'1'); if(nb > 1 && ms[o2].exists && ms[o2].where == "server") continue;   // presenting a live id IS that session (bearer token): not an attack the server can detect
 				} else if(what == "long_sid") c = "I" + std::string(33,'a'); else if(what == "empty") c = ""; else c = "I" + std::string(31,'a') + "g";
-				Jar attacker; if(!c.empty()){ Jar::C e; e.value = c; attacker.jar[PREFIX] = e; } attacker.begin_request();
-				session_interface s(pool,attacker); bool loaded = false; try { loaded = s.load(); } catch(std::exception const &e){ res.fail("load-threw",where + ": load() threw " + e.what()); break; }
+				Jar &attacker = attacker_jar; attacker.jar.clear(); attacker.log.clear(); attacker.request_cookies.clear(); attacker.in_request = false; if(!c.empty()){ Jar::C e; e.value = c; attacker.jar[PREFIX] = e; } attacker.begin_request();
+				std::unique_ptr<session_interface> afresh; if(!reuse) afresh.reset(new session_interface(pool,attacker)); session_interface &s = reuse ? *shared_s : *afresh;   // reuse mode: the attacker's request is served by the same long-lived object as the browsers'
+				bool loaded = false; try { loaded = reuse ? s.set_cookie_adapter_and_reload(attacker) : s.load(); } catch(std::exception const &e){ res.fail("load-threw",where + ": load() threw " + e.what()); break; }
 				if(loaded || !s.key_set().empty()){ res.fail("foreign-session-loaded",where + ": attacker cookie " + wire::esc(c.substr(0,40)) + " (" + what + ") loaded a session"); break; }
 				s.save(); continue; }
 			// ---------------- an ordinary request
